@@ -17,6 +17,12 @@ func New(r bufio.Reader) LexerReader {
 	content, _ := io.ReadAll(&r)
 	runes := []rune(string(content))
 
+	// the end of the input ends the last line: evaluators that stop at a line
+	// break must behave the same whether or not the file ends with one
+	if len(runes) > 0 && runes[len(runes)-1] != '\n' {
+		runes = append(runes, '\n')
+	}
+
 	return LexerReader{
 		runes:    runes,
 		pos:      0,
